@@ -317,6 +317,11 @@ DosingOk == LET ds == DosingOf(ins) IN ds # <<>> =>
                /\ CentralOf(ins) \in SeqSet(ds) => ds[Len(ds)] = CentralOf(ins)
 
 \* ---------------------------------------------------------------- case emission
+\* two compartments outside the part reachable from the first dosing compartment flow into a common third one that
+\* is outside it as well (SRC1 -> POOL <- SRC2): the situation in which _order_compartments must not place POOL twice
+ConfluenceP == LET ds == DosingOf(ins) IN ds # <<>> /\
+                 LET far == Comps \ SeqSet(Bfs(ds[1]))
+                 IN \E c \in far : Cardinality({a \in far : Rate(a, c) # 0}) >= 2
 FlowJ(F) == {[src |-> Name[f[1]], dst |-> IF f[2] = 0 THEN "OUT" ELSE Name[f[2]], kind |-> f[3]] : f \in F}
 NamesSeq(q) == [i \in 1..Len(q) |-> Name[q[i]]]
 TermJ(t) == [sign |-> t[1], src |-> Name[t[2]], dst |-> IF t[3] = 0 THEN "OUT" ELSE Name[t[3]], kind |-> t[4]]
@@ -330,6 +335,7 @@ Case == LET o == Order
             comp |-> {[name |-> Name[a], doses |-> View(doses[a]), stored |-> doses[a], lag |-> lag[a], bio |-> bio[a], inp |-> inp[a]] : a \in Comps},
             central |-> IF CentralOf(ins) = 0 THEN "none" ELSE Name[CentralOf(ins)],
             nout |-> NOut,
+            confluence |-> ConfluenceP,
             dosing |-> NamesSeq(DosingOf(ins)),
             order |-> NamesSeq(o),
             subs_orders |-> {NamesSeq(o2) : o2 \in OrdersAfterSubs},
@@ -340,10 +346,5 @@ Case == LET o == Order
                                   kind |-> t[4], amount |-> Name[t[5]]] : t \in {x \in EqsRef(a) : x[4] # 0}},
                       input |-> inp[a]] : a \in Comps}]
 Sampled == ((h * 13 + Len(hist)) % 9973) % SampleMod = SampleRes
-\* two compartments outside the part reachable from the first dosing compartment flow into a common third one that
-\* is outside it as well (SRC1 -> POOL <- SRC2): the situation in which _order_compartments must not place POOL twice
-Confluence == LET ds == DosingOf(ins) IN ds # <<>> /\
-                 LET far == Comps \ SeqSet(Bfs(ds[1]))
-                 IN \E c \in far : Cardinality({a \in far : Rate(a, c) # 0}) >= 2
-EmitCase == (Sampled \/ (EmitConfluence /\ Confluence)) => PrintT(<<"CASE", ToJson(Case)>>)
+EmitCase == (Sampled \/ (EmitConfluence /\ ConfluenceP)) => PrintT(<<"CASE", ToJson(Case)>>)
 =============================================================================
